@@ -38,3 +38,8 @@ package utils
 //@     invariant 1 <= i && n == len(b) && n >= 1
 //@     invariant changedOnly(arr(b), off(b), off(b) + len(b))
 //@     invariant forall(k, 0, len(b), asciiLower(b[k]) == asciiLower(old(b[k])))
+
+//@ func NextLine(b) line, rest, err
+//@   props C03
+//@   ensures err == nil ==> within(line, b) && within(rest, b) && len(rest) < len(b)
+
